@@ -68,3 +68,29 @@ Proof.
   destruct (negb (m_rc m =? RC_E_OK)); [reflexivity|].
   destruct h as [p| |]; cbn [andb reply_of]; [destruct (m_mt m =? MT_REQUEST); reflexivity|reflexivity|reflexivity].
 Qed.
+
+(* ------------------------------------------------------------------ ServiceInstance.handle_subscribe *)
+Definition run_sub_act (e : sdentry) (a : addr) (i : N) (w : option world) (g : gact) : option world :=
+  let sub := from_subscribe_entry e in
+  match w, g with
+  | Some w, GCall F_subscribe_stopped => Some (store_stop (SSubs i) a (KSub sub) w)
+  | Some w, GCall F_subscriptions_refresh => Some (fst (store_refresh (SSubs i) (sb_ttl sub) a (KSub sub) w))
+  | Some w, GCall F_queue_ack => Some (queue_send (to_ack_entry sub (sb_ttl sub)) (Some a) w)
+  | Some w, GCall F_send_nack => Some (send_subscribe_nack sub a w)
+  | _, _ => None
+  end.
+(* `accepted` is what the listener said: the store's refresh reports it *)
+Theorem inst_handle_subscribe_is_the_translated_source e a i w ins :
+  get_inst i w = Some ins ->
+  let accepted := snd (store_refresh (SSubs i) (sb_ttl (from_subscribe_entry e)) a (KSub (from_subscribe_entry e)) w) in
+  let '(acts, r) := gen_inst_handle_subscribe (match in_task ins with None => true | Some _ => false end)
+                      (match matches_subscribe (in_service ins) e with Ok true => true | _ => false end) e accepted in
+  fold_left (run_sub_act e a i) acts (Some w) = Some (fst (inst_handle_subscribe e a i w)) /\ r = snd (inst_handle_subscribe e a i w).
+Proof.
+  intros Hi. cbv zeta. unfold inst_handle_subscribe, gen_inst_handle_subscribe. rewrite Hi.
+  destruct (in_task ins); [|split; reflexivity].
+  destruct (matches_subscribe (in_service ins) e) as [[|]|]; cbn [negb]; try (split; reflexivity).
+  destruct (e_ttl e =? 0); [split; reflexivity|].
+  destruct (store_refresh (SSubs i) (sb_ttl (from_subscribe_entry e)) a (KSub (from_subscribe_entry e)) w) as [w1 ok] eqn:E.
+  cbn [snd fst]. destruct ok; cbn [gprep fst snd fold_left run_sub_act]; rewrite E; split; reflexivity.
+Qed.
